@@ -191,7 +191,9 @@ def burst_worker(a):
     b, seed, n = a["build"], a["seed"], a["n"]
     rng = random.Random(seed)
     use_class = rng.random() < 0.4
-    cfg = proto.Config([("drone.svc", "dronecheck")] if a.get("service") else [], timeout=rng.choice([None, 3600]),
+    # (with `after`: a login service next to the drone check; nobody sends a password before the verdict, so it is asked only if a
+    # password that arrives after the verdict is still taken to be the client's)
+    cfg = proto.Config(([("drone.svc", "dronecheck")] + ([("login.svc", "login")] if a.get("after") else [])) if a.get("service") else [], timeout=rng.choice([None, 3600]),
                        rules=[{"name": "r1", "address": "10.0.1.0/24", "class": "one"}, {"name": "r2", "class": "rest"}] if use_class else [], use_class=use_class)
     ids = [k + 1 for k in range(n)] if rng.random() < 0.5 else rng.sample(range(1, 100000), n)
     lines = ["%d C 10.0.%d.%d 1 10.0.0.1 1" % (cid, (k >> 8) & 255, k & 255) for k, cid in enumerate(ids)]
@@ -207,6 +209,16 @@ def burst_worker(a):
         # the dronecheck service is asked about every complete client; it answers all of them in the same burst (serial = order of announcement)
         for k, cid in enumerate(ids):
             lines.append("-1 X drone.svc %x_%x :OK" % (cid, k + 1))
+    if a.get("after"):
+        # more lines about the same clients right behind the ones that decide them, in the same write: a password, another
+        # hurry-up, a late reply - the client has its verdict by then and nothing more may be said about it
+        extra = rng.choice([["P :+x acct pw", "H"], ["H", "n other"], ["P :+x acct pw"], ["u late", "H"]])
+        for cmd in extra:
+            for cid in ids:
+                lines.append("%d %s" % (cid, cmd))
+        if a.get("service"):
+            for k, cid in enumerate(ids):
+                lines.append("-1 X drone.svc %x_%x :OK" % (cid, k + 1))
     tail = rng.choice([None, "D", "T"])
     if tail:
         half = ids[::2]
@@ -247,20 +259,30 @@ def burst_worker(a):
         res["inconc"].append("daemon unclean in a burst run (%s); see C08" % (r.describe(),))
         return res
     got = {}
+    after_verdict = []
     for ln in at_rest:
         m = re.match(r"^([DRk]) (-?\d+) ", ln)
         if m:
             got.setdefault(int(m.group(2)), []).append(m.group(1))
+            continue
+        m = re.match(r"^(?:[A-Za-z] (-?\d+) |X \S+ ([0-9a-f]+)_)", ln)
+        if m:
+            who_ = int(m.group(1)) if m.group(1) else int(m.group(2), 16)
+            if who_ in got:
+                after_verdict.append(ln)
     res["stats"]["burst_verdicts_at_quiescence"] = len(got)
     missing = [c for c in ids if c in complete and c not in got]
     # a client withdrawn at the end of the burst had been decided before (its lines came first)
     extra = [c for c in got if c not in complete]
     twice = [c for c, v in got.items() if len(v) > 1]
-    wit = {"seed": seed, "n": n, "service": bool(a.get("service")), "burst": True}
+    wit = {"seed": seed, "n": n, "service": bool(a.get("service")), "burst": True, "after": bool(a.get("after"))}
     if missing:
         res["viol"].append(("C03", "burst-stuck", "burst-stuck", "%d clients were announced and given everything they need in one burst of %d lines (%d bytes, one write); when the daemon had "
                             "drained its input and gone to sleep, %d of them had no verdict (first: %s)\nfirst input lines: %s" % (
                                 n, len(lines), len(data), len(missing), missing[:5], lines[:3] + ["..."] + lines[n:n + 2]), wit))
+    if after_verdict:
+        res["viol"].append(("C01", "burst-after-verdict", "burst-after-verdict", "after a burst of %d lines the daemon went on about clients it had already decided: %s" % (
+            len(lines), after_verdict[:4]), wit))
     if twice or extra:
         res["viol"].append(("C01", "burst-verdicts", "burst-verdicts", "after a burst of %d lines: clients with two verdicts %s, verdicts for clients that were not complete %s" % (
             len(lines), twice[:5], extra[:5]), wit))
@@ -361,7 +383,7 @@ def hist_jobs(build, n, seed, props, n_events=120, ids_pool=(3, 4, 5, 6, 17), op
         ids = list(ids_pool)[:rng.choice([3, 4, 5])] if len(ids_pool) >= 5 else list(ids_pool)
         if i % 8 in (2, 7) and len(ids_pool) >= 5:
             # ids that agree in their low 8 / 10 / 16 bits, and ids at the ends of the int range (the table is keyed by int)
-            ids = [[5, 261, 1029, 65541], [7, 7 + 1024, 7 + 2048, 7 + (1 << 20)], [-2147483648, 2147483647, -2, 2000000000, -2000000000]][(i // 4) % 3]
+            ids = [[5, 261, 1029, 65541], [7, 7 + 1024, 7 + 2048, 7 + (1 << 20)], [-2147483648, 2147483647, -2, 2000000000, -2000000000], [0, 1, 16384, 32768]][(i // 4) % 4]
         o = dict(opts or {})
         o.setdefault("vary_addr", vary_addr)
         w0 = dict(o.get("weights") or {})
